@@ -530,7 +530,7 @@ func (m *Model) exec1(w *strings.Builder, s *S, env *Env, fr *frame) error {
 		if hadLoop {
 			env.vars["loop"] = oldLoop
 		} else {
-			delete(env.vars, "loop")
+			env.vars["loop"] = poison{}
 		}
 		// no rule for reading the loop variables after the loop: poison them
 		env.vars[s.Name] = poison{}
